@@ -1,9 +1,9 @@
 (* Props/C14.v -- C14: polytope constructors and transformations are set-exact.  Property theorems only.
    Model: Base/PolyCtor.v (operations as coded in /repo/src/linalg/affine.rs; None = the Rust code panics);
-   proofs: Base/PolyCtorProofs.v, Base/PolySimplex.v; certified set comparison used by the tie: Cert/PolyInc.v.
+   proofs: Base/PolyCtorProofs.v, Base/PolySimplex.v, Base/LinDep.v; certified set comparison used by the tie: Cert/PolyInc.v.
    All statements hold for every dimension (0 included unless stated), every polytope / argument and every
    point x : list Qc of the ambient length.  in_poly P x  :=  A x <= b row by row. *)
-From AT Require Import Num Vec Aff Poly AffOps Farkas FM PolyCtor PolyCtorProofs PolySimplex PolyInc.
+From AT Require Import Num Vec Aff Poly AffOps Farkas FM PolyCtor PolyCtorProofs PolySimplex LinDep PolyInc.
 
 (* ---- intersection, intersection_n ---- *)
 Theorem C14_intersection : forall P Q x, wf_aff P -> wf_aff Q -> a_in P = a_in Q ->
@@ -35,35 +35,34 @@ Proof. exact in_apply_pre. Qed.
 Theorem C14_apply_pre_guard : forall P f, a_in P <> outdim f -> p_apply_pre P f = None.
 Proof. exact apply_pre_panics. Qed.
 
-(* ---- apply_post(inverse_mat, bias):  y in result  <->  inverse_mat (y - bias) in P;  with M the inverse of
-        inverse_mat the result holds exactly the images M x + bias of the points x of P ---- *)
+(* ---- apply_post(inverse_mat, bias):  y in result  <->  inverse_mat (y - bias) in P;  with inverse_mat M = I
+        the result holds exactly the images M x + bias of the points x of P ---- *)
 Theorem C14_apply_post_preimage : forall P inv c y, wf_aff P -> cols (a_in P) inv -> length inv = a_in P ->
   length c = a_in P -> length y = a_in P ->
   exists Q, p_apply_post P (a_in P) inv c = Some Q /\ wf_aff Q /\ a_in Q = a_in P /\
             (in_poly Q y <-> in_poly P (matvec inv (vsub y c))).
 Proof. exact in_apply_post. Qed.
 Theorem C14_apply_post : forall P M inv c y, wf_aff P -> cols (a_in P) inv -> length inv = a_in P ->
-  cols (a_in P) M -> length M = a_in P ->
-  matmul (a_in P) inv M = eye (a_in P) -> matmul (a_in P) M inv = eye (a_in P) ->
+  cols (a_in P) M -> length M = a_in P -> matmul (a_in P) inv M = eye (a_in P) ->
   length c = a_in P -> length y = a_in P ->
   exists Q, p_apply_post P (a_in P) inv c = Some Q /\ wf_aff Q /\
             (in_poly Q y <-> exists x, length x = a_in P /\ in_poly P x /\ y = vadd (matvec M x) c).
-Proof. exact apply_post_image. Qed.
+Proof. exact apply_post_image1. Qed.
+(* for square matrices inv M = I implies M inv = I (more than n vectors of Q^n are linearly dependent) *)
+Theorem C14_left_inverse_is_right_inverse : forall n A B, cols n A -> length A = n -> cols n B -> length B = n ->
+  matmul n B A = eye n -> forall y, length y = n -> matvec A (matvec B y) = y.
+Proof. exact left_inverse_is_right_inverse. Qed.
 Theorem C14_apply_post_guard : forall P k inv c,
   a_in P <> length inv \/ length inv <> length c \/ k <> length c -> p_apply_post P k inv c = None.
 Proof. exact apply_post_panics. Qed.
 
-(* ---- rotate(R) = apply_post(R^T, 0): for orthogonal R (R^T R = R R^T = I) exactly the images R x.
-        (For a square matrix each of the two equations implies the other; that implication is not proved here, so
-        both are hypotheses.  With R^T R = I alone: C14_rotate_image_incl, and without any hypothesis on R:
-        C14_rotate_preimage.) ---- *)
+(* ---- rotate(R) = apply_post(R^T, 0): for R^T R = I exactly the images R x of the points x of P.
+        Without any hypothesis on R: C14_rotate_preimage. ---- *)
 Theorem C14_rotate : forall P R y, wf_aff P -> length R = a_in P -> cols (a_in P) R ->
-  matmul (a_in P) (transpose (a_in P) R) R = eye (a_in P) ->
-  matmul (a_in P) R (transpose (a_in P) R) = eye (a_in P) ->
-  length y = a_in P ->
+  matmul (a_in P) (transpose (a_in P) R) R = eye (a_in P) -> length y = a_in P ->
   exists Q, p_rotate P (a_in P) R = Some Q /\ wf_aff Q /\
             (in_poly Q y <-> exists x, length x = a_in P /\ in_poly P x /\ y = matvec R x).
-Proof. exact rotate_image. Qed.
+Proof. exact rotate_image1. Qed.
 Theorem C14_rotate_preimage : forall P R y, wf_aff P -> length R = a_in P -> length y = a_in P ->
   exists Q, p_rotate P (a_in P) R = Some Q /\ wf_aff Q /\ a_in Q = a_in P /\
             (in_poly Q y <-> in_poly P (matvec (transpose (a_in P) R) y)).
@@ -194,7 +193,7 @@ Definition ex_R : mat := [[0; - (1)]; [1; 0]].                                  
 Definition ex_f : aff := mk 1 [[1]; [1 + 1]] [0; - (1)].                               (* t |-> (t, 2t - 1) *)
 Example C14_nonvacuous :
   wf_aff ex_P /\ wf_aff ex_f /\ a_in ex_P = outdim ex_f /\
-  matmul 2 (transpose 2 ex_R) ex_R = eye 2 /\ matmul 2 ex_R (transpose 2 ex_R) = eye 2 /\
+  matmul 2 (transpose 2 ex_R) ex_R = eye 2 /\
   p_translate ex_P [1; 1] = Some (mk 2 [[1; 0]; [0; 1]; [- (1); - (1)]] [1 + 1; 1 + 1; - (1 + 1)]) /\
   p_apply_pre ex_P ex_f = Some (mk 1 [[1]; [1 + 1]; [- (1 + 1 + 1)]] [1; 1 + 1; - (1)]) /\
   p_rotate ex_P 2 ex_R = Some (mk 2 [[0; 1]; [- (1); 0]; [1; - (1)]] [1; 1; 0]) /\
@@ -222,6 +221,7 @@ Print Assumptions C14_apply_pre_guard.
 Print Assumptions C14_apply_post_preimage.
 Print Assumptions C14_apply_post.
 Print Assumptions C14_apply_post_guard.
+Print Assumptions C14_left_inverse_is_right_inverse.
 Print Assumptions C14_rotate.
 Print Assumptions C14_rotate_preimage.
 Print Assumptions C14_rotate_image_incl.
